@@ -7,7 +7,7 @@
    Writer preference of sync.RWMutex only removes traces; the theorems quantify over the larger set.
    Outside the model: the Go memory model itself (we use "conflicting accesses separated by a release and an
    acquire of one mutex" as race-freedom), the scheduler, the race detector. *)
-From Coq Require Import List String Bool Arith.
+From Coq Require Import String List Bool Arith.
 Import ListNotations.
 
 Definition mutex := string.
